@@ -8,6 +8,7 @@ import (
 	"fmt"
 	"os"
 	"path/filepath"
+	"sort"
 	"strings"
 	"sync"
 
@@ -55,7 +56,9 @@ func genWasiScript(r *core.Rng, nInst, n int) []wop {
 	for k := 0; k < n; k++ {
 		i := r.Intn(nInst)
 		fd := uint32(3 + r.Intn(6)) // 3 is the preopen; 4.. are opened files
-		switch r.Intn(16) {
+		switch r.Intn(18) {
+		case 16, 17:
+			out = append(out, wop{Inst: i, Op: "readdir", A: uint32(r.Intn(2))})
 		case 12, 13:
 			out = append(out, wop{Inst: i, Op: "random", B: uint32(1 + r.Intn(24))})
 		case 14:
@@ -182,6 +185,40 @@ func (in *wasiInst) do(o wop) {
 			off = 0
 		}
 		ev = fmt.Sprintf("seek(%d,%d) -> errno=%d off=%d", o.A, o.B, errno, off)
+	case "readdir": // list the instance's own root (A=1: its sub directory) from the start
+		dirfd := uint64(3)
+		if o.A == 1 {
+			mem.Write(1024, []byte("sub"))
+			if errno := in.call("path_open", 3, 1, 1024, 3, 2 /* O_DIRECTORY */, 0x3ffffff, 0x3ffffff, 0, 2048); errno == 0 {
+				v, _ := mem.ReadUint32Le(2048)
+				dirfd = uint64(v)
+			}
+		}
+		mem.Write(5000, bytes.Repeat([]byte{0}, 1024))
+		errno := in.call("fd_readdir", dirfd, 5000, 1024, 0, 4900)
+		used, _ := mem.ReadUint32Le(4900)
+		var names []string
+		dotIno := uint64(0)
+		for off := uint32(0); errno == 0 && off+24 <= used; {
+			ino, _ := mem.ReadUint64Le(5000 + off + 8)
+			nl, _ := mem.ReadUint32Le(5000 + off + 16)
+			if off+24+nl > used {
+				break
+			}
+			nm, _ := mem.Read(5000+off+24, nl)
+			if string(nm) == "." {
+				dotIno = ino
+			}
+			names = append(names, string(nm))
+			off += 24 + nl
+		}
+		sort.Strings(names)
+		statErr := in.call("fd_filestat_get", dirfd, 4600)
+		statIno, _ := mem.ReadUint64Le(4608)
+		ev = fmt.Sprintf("readdir(%d) -> errno=%d names=%v dot_ino_is_own_inode=%v", o.A, errno, names, statErr == 0 && dotIno == statIno)
+		if dirfd != 3 {
+			in.call("fd_close", dirfd)
+		}
 	case "random": // default (deterministic) random source: per instance, as if it were alone
 		mem.Write(4200, bytes.Repeat([]byte{0x55}, 32))
 		errno := in.call("random_get", 4200, uint64(o.B))
